@@ -53,6 +53,7 @@ fn c20_signer_retrieval_fails_exactly_at_epoch_zero() {
 #[kani::proof]
 fn c20_offset_by_is_exact() {
     let e = any_epoch();
+    kani::assume(e.0 < (1u64 << 62)); // e + d must be representable in i64 (real epochs are < 2^32)
     let d: i64 = kani::any();
     kani::assume(d > -(1i64 << 62) && d < (1i64 << 62));
     let r = e.offset_by(d);
